@@ -64,7 +64,14 @@ pub fn relation(rng: &mut Rng, f: &RelFlags) -> String {
     let mut s = String::new();
     s.push_str(rng.s(PKG));
     if rng.chance(1, 6) {
+        // the reader skips blanks on both sides of the qualifier colon
+        if rng.chance(1, 4) {
+            s.push_str(&ws(rng, f, ""));
+        }
         s.push(':');
+        if rng.chance(1, 8) {
+            s.push_str(&ws(rng, f, ""));
+        }
         s.push_str(rng.s(&["any", "native", "amd64"]));
     }
     if rng.chance(1, 2) {
